@@ -97,9 +97,15 @@ def run(eng, R):
              "the Gaussian-approximation gof must switch its determinant flag off for the evaluation and restore the saved value afterwards")
         fb = get_func(p, "FitBase", "goodness_of_fit")
         src = eng.csrc(fb)
-        R.ob("H-gof", "FitBase.goodness_of_fit", src.all_like("_c = self._cost_function_pointwise if self._cost_function_pointwise is not None and is_diagonal(self.total_cov_mat) else self._cost_function",
+        from . import selection
+        _sel = selection.selecting_tests(fb.node)
+        _pred = [" ".join(ast.unparse(e).split()) for t, first in _sel for e, pol in selection._predicates(t, first)]
+        _ptxt = _pred[0] if len(_pred) == 1 else "is_diagonal(self.total_cov_mat)"
+        R.ob("H-gof", "FitBase.goodness_of_fit", src.all_like("_c = self._cost_function_pointwise if self._cost_function_pointwise is not None and %s else self._cost_function" % _ptxt,
                                                               "return _c.goodness_of_fit(*[self._nexus.get(_n).value for _n in _c.arg_names])"),
              (fb.file, fb.lineno), "FitBase.goodness_of_fit must evaluate the selected cost function's gof on the values of its own argument nodes")
+        from . import selection
+        selection.check(eng, R, "H-gof", fb, "FitBase.goodness_of_fit")
 
         # the pointwise twin may stand in for the covariance cost only for an exactly diagonal matrix (any tolerance drops small correlations from the gof)
         isd = p.resolve_name(p.module("kafe2.fit.util"), "is_diagonal")
